@@ -61,6 +61,7 @@ def run(rep):
     rep.guard(c12.h5, rep, w)          # a re-entrancy guard left set makes has_hash answer `true` for ever: an unhashable key then reaches the hasher, whose arm for such kinds is a host panic
     rep.guard(p12, rep, w)
     rep.guard(p13, rep, w)
+    rep.guard(p14, rep, w)
     import c06
     rep.guard(c06.s4, rep, w)          # an upvalue left open past the end of its scope is a raw pointer into a dead stack slot: the open list stays ordered the way close_upvalues walks it
     import c09
@@ -1035,3 +1036,44 @@ def p13(rep, w, prop='C02'):
             cn.TYPE_RANGE.clear()
             cn.TYPE_RANGE.update(saved)
     r.note('narrowing casts outside the compiler: %d' % n)
+
+
+def p14(rep, w, prop='C02'):
+    """a built-in answers a failed expectation with an Err, never with a host panic: the functions the interpreter registers as natives (signature
+    fn(&mut Vm, usize) -> Result<Value, Error>), their closures and the helpers of core.rs / utils.rs they call contain no unwrap / expect of an
+    Option or Result. (Census today: none - every `None` / `Err` a native can meet on program-chosen data is turned into an error value, e.g.
+    Utf8Error::error_len() is None for input that ends inside a sequence.)"""
+    r = rep.rule('P14', 'no unwrap / expect of an Option or Result in the built-ins and their helpers', floor=40)
+    c = w.yarel
+    natives = []
+    for f in c.fns.values():
+        if f.kind == 'Closure' or f.argc != 2 or not f.file.endswith('core.rs'):
+            continue
+        ret, a1, a2 = c.tstr(f.local_ty(0)), c.tstr(f.local_ty(1)), c.tstr(f.local_ty(2))
+        if 'Result<' in ret and 'Value' in ret and a1.startswith('&mut') and a1.endswith('Vm') and a2 == 'usize':
+            natives.append(f.path)
+    seen, todo = set(), list(natives)
+    while todo:
+        p_ = todo.pop()
+        if p_ in seen or p_ not in c.fns:
+            continue
+        seen.add(p_)
+        g = c.fns[p_]
+        for _, t in g.calls(only_normal=False):
+            tg, _, _ = w.call_targets(g, t)
+            todo.extend(x for x in tg if x in c.fns and (c.fns[x].file.endswith(('core.rs', 'utils.rs'))))
+    n = 0
+    for p_ in sorted(seen):
+        g = c.fns[p_]
+        bad = []
+        for bi, t in g.calls():
+            nm = strip_generics(callee_name(t) or '')
+            tail = nm.rsplit('::', 1)[-1]
+            if tail in ('unwrap', 'expect', 'unwrap_unchecked') and ('Option' in nm or 'Result' in nm) and not (isinstance(t.get('sp'), list) and t['sp'][1]):
+                bad.append((nm.rsplit('::', 2)[-2] + '::' + tail, t.get('sp')))
+        n += 1
+        r.check(not bad, '%s / no unwrap' % p_.replace('yarel::', ''),
+                '%s - code of a built-in - calls %s: when the value is None / Err for some input the program chose, the host panics instead of raising an error'
+                % (p_, ', '.join(sorted({b[0] for b in bad}))), g.loc(bad[0][1]) if bad else g.loc())
+    if len(natives) < 40:
+        raise Broken(prop, 'floor', 'P14: only %d natives found in core.rs' % len(natives))
